@@ -3,6 +3,7 @@ package main
 import (
 	"fmt"
 	"time"
+	"unicode/utf8"
 	"go/constant"
 	"go/token"
 	"go/types"
@@ -955,6 +956,21 @@ func (ex *Exec) convert(from, to types.Type, v Value) Value {
 				return ex.mkStr([]seg{{b: tf.Resize(x, 8, false)}})
 			case SliceV: // []byte or []rune -> string
 				el := fu.(*types.Slice).Elem().Underlying().(*types.Basic)
+				if el.Kind() != types.Uint8 {
+					allC := true
+					rs := make([]rune, x.len)
+					for i := 0; i < x.len; i++ {
+						e := x.arr.v.(*ArrayV).elems[x.off+i].(*Term)
+						if !e.IsConst() {
+							allC = false
+							break
+						}
+						rs[i] = rune(e.SVal())
+					}
+					if allC {
+						return ex.cstr(string(rs))
+					}
+				}
 				segs := make([]seg, 0, x.len)
 				for i := 0; i < x.len; i++ {
 					e := x.arr.v.(*ArrayV).elems[x.off+i].(*Term)
@@ -981,9 +997,28 @@ func (ex *Exec) convert(from, to types.Type, v Value) Value {
 			return v
 		}
 	case *types.Slice:
+		if s, ok := v.(*StrV); ok && s.isC {
+			el := t.Elem().Underlying().(*types.Basic)
+			if el.Kind() != types.Uint8 {
+				rs := []rune(s.conc)
+				sl := ex.makeSlice(t.Elem(), len(rs), len(rs))
+				for i, r := range rs {
+					sl.arr.v.(*ArrayV).elems[i] = tf.Const(32, uint64(r))
+				}
+				return sl
+			}
+		}
 		if s, ok := v.(*StrV); ok {
 			el := t.Elem().Underlying().(*types.Basic)
 			segs := ex.strSegs(s)
+			if el.Kind() != types.Uint8 {
+				for _, sg := range segs {
+					if sg.op != nil {
+						// []rune of a string with an opaque chunk: only its length (the rune count) is supported
+						return &RuneSeq{s: s}
+					}
+				}
+			}
 			sl := ex.makeSlice(t.Elem(), len(segs), len(segs))
 			for i, sg := range segs {
 				if sg.op != nil {
@@ -1010,6 +1045,10 @@ func (ex *Exec) assumeInternal(c *Term, why string) {
 	ex.stats.noteAssumption(why)
 	if c.IsTrue() {
 		return
+	}
+	if c.IsFalse() {
+		// concrete data violates an assumption of the encoding: the path cannot be decided (never dropped silently)
+		ex.unsupported("concrete data outside the encoding's assumption: " + why)
 	}
 	if !ex.feasibleNoFork(c) {
 		panic(pathEnd{"infeasible", "internal assumption " + why})
@@ -1298,6 +1337,15 @@ func (ex *Exec) next(in *ssa.Next, it *RangeIter) Value {
 		if sg.op != nil {
 			ex.unsupported("range over opaque string chunk")
 		}
+		if it.s.isC && it.idx.IsConst() {
+			// concrete string: exact UTF-8 decoding
+			off := int(it.idx.val)
+			r, size := utf8.DecodeRuneInString(it.s.conc[off:])
+			idx := it.idx
+			it.pos += size
+			it.idx = tf.Const(64, uint64(off+size))
+			return TupleV{tf.Bool(true), idx, tf.Const(32, uint64(r))}
+		}
 		ex.assumeInternal(tf.Cmp("bvult", sg.b, tf.Const(8, 128)), "ascii bytes in ranged string")
 		idx := it.idx
 		it.pos++
@@ -1321,6 +1369,8 @@ func (ex *Exec) callBuiltin(fr *Frame, b *ssa.Builtin, args []Value, site ssa.In
 	switch b.Name() {
 	case "len":
 		switch x := args[0].(type) {
+		case *RuneSeq:
+			return ex.runeCount(x.s)
 		case *StrV:
 			return ex.strLen(x)
 		case SliceV:
